@@ -118,8 +118,8 @@ def canon_output(text):
             el.set("fill", "url(#%s)" % ren[m.group(1)])
     for d in root.iter("{%s}defs" % SVG):
         d[:] = sorted(d, key=lambda e: e.attrib.get("id", ""))
-    # unused namespace *declarations* left on inner elements are not content (noted in DESIGN §6)
-    etree.cleanup_namespaces(root)
+    # namespace declarations are compared as written: a foreign prefix declared on an inner element must go with the
+    # content that used it (repaired in /repo, DESIGN §9.3; the canonical form used to drop unused declarations)
     return etree.tostring(root).decode("utf-8")
 
 
@@ -209,6 +209,9 @@ CORPUS_PAIRS = [
     (H_ + '<rect width="5" height="5"/></svg>', H_ + '<foo xmlns=""/><rect width="5" height="5"/></svg>'),
     (H_ + '<g opacity="0.5"><rect width="5" height="5"/><circle r="2"/></g></svg>',
      H_ + '<g opacity="0.5"><rect width="5" height="5"/><bar xmlns=""><rect xmlns="http://www.w3.org/2000/svg" width="1" height="1"/></bar><circle r="2"/></g></svg>'),
+    # a foreign prefix declared on a kept group goes with the attribute and element that used it
+    (H_ + '<g opacity="0.5"><path d="M1,1 L9,1 L9,9 Z"/><path d="M3,3 L9,3 L9,9 Z"/></g></svg>',
+     H_ + '<g opacity="0.5" xmlns:foo="urn:foo" foo:bar="1"><foo:x/><path d="M1,1 L9,1 L9,9 Z"/><path d="M3,3 L9,3 L9,9 Z"/></g></svg>'),
     (H_ + '<path d="M0,0 L1,1 L1,0 Z"/></svg>', '<?foo a?>' + H_ + '<path d="M0,0 L1,1 L1,0 Z"/></svg>'),
     (H_ + '<path d="M0,0 L1,1 L1,0 Z"/></svg>', '<?xml version="1.0"\n   encoding="UTF-8"?>\n<!-- c -->\n' + H_ + '<path d="M0,0 L1,1 L1,0 Z"/></svg><!-- after -->'),
 ]
